@@ -28,9 +28,14 @@ import (
 type universe struct {
 	names      []string // lower-case names of all checks of the binary
 	nonDefault []string // lower-case, sorted
+
+	prettyDefault bool // for messages: the default list is shown as one token
 }
 
 func (u *universe) defaultList() []string {
+	if u.prettyDefault {
+		return []string{"<default>"}
+	}
 	l := []string{"all"}
 	for _, n := range u.nonDefault {
 		l = append(l, "-"+n)
